@@ -133,7 +133,7 @@ def ref_job(job):
     return out
 
 
-def one_analysis(o, argv):
+def one_analysis(o, argv, root=None):
     """The entry point embedders use, exceptions rendered as text."""
     args = None
     buf = io.StringIO()
@@ -155,7 +155,8 @@ def one_analysis(o, argv):
                 args.file.close()
         except Exception:
             pass
-    return "\n".join(l for l in s.split("\n") if not l.startswith("Timestamp:"))
+    s = "\n".join(l for l in s.split("\n") if not l.startswith("Timestamp:"))
+    return s.replace(root, "<root>") if root else s
 
 
 def run_history(root, argvs, chooser):
@@ -172,7 +173,7 @@ def run_history(root, argvs, chooser):
         sys.modules.update(mods)
         o = mods["osaca.osaca"]
         for argv in argvs:
-            reports.append(one_analysis(o, argv))
+            reports.append(one_analysis(o, argv, root))
             sim.ev("analysis", len(reports), hashlib.sha1(reports[-1].encode()).hexdigest()[:12])
 
     saved = isolate.snapshot()
